@@ -4,6 +4,7 @@ package main
 // function under contract is executed symbolically.
 
 import (
+	"math/big"
 	"regexp"
 	"fmt"
 	"go/token"
@@ -78,6 +79,13 @@ type Ctx struct {
 	epochs     []epochInfo
 	epochCache map[string]Term
 	defCache   map[string]string
+	caseSuffix string
+	knownConst map[string]string
+	storeOf    map[string]storeRec
+	copyRecs   map[string]copyRec
+	mergeOf    map[string][]Term
+	oldRefs    map[string]bool
+	prune      bool // prune infeasible branches (case-split runs)
 	baseArrays map[string][]baseArr
 	refStruct  map[string]Term // named reference -> its structural (mkref ...) form
 	inQuant    int
@@ -90,7 +98,7 @@ const globalBase = 1000
 func NewCtx(w *World, intMode bool) *Ctx {
 	c := &Ctx{W: w, intMode: intMode, strLits: map[string]Term{}, memSort: map[string]string{},
 		memInit: map[string]Term{}, globals: map[*ssa.Global]Term{}, assumed: map[string]bool{},
-		ufDecl: map[string]bool{}, sites: map[string]int{}, depthCap: 8, epochCache: map[string]Term{}, defCache: map[string]string{}, baseArrays: map[string][]baseArr{}, refStruct: map[string]Term{}}
+		ufDecl: map[string]bool{}, sites: map[string]int{}, depthCap: 8, epochCache: map[string]Term{}, defCache: map[string]string{}, baseArrays: map[string][]baseArr{}, refStruct: map[string]Term{}, storeOf: map[string]storeRec{}, copyRecs: map[string]copyRec{}, mergeOf: map[string][]Term{}, oldRefs: map[string]bool{}, knownConst: map[string]string{}}
 	if intMode {
 		c.idxSort = SInt
 	} else {
@@ -135,6 +143,9 @@ func (c *Ctx) Def(prefix string, t Term) Term {
 		if _, _, ok := splitRef(t); ok {
 			c.refStruct[n] = t
 		}
+		if c.oldRefs[t.S] {
+			c.oldRefs[n] = true
+		}
 	}
 	c.decls = append(c.decls, fmt.Sprintf("(define-fun %s () %s %s)", n, t.Sort, t.S))
 	return Term{S: n, Sort: t.Sort}
@@ -170,6 +181,9 @@ func (c *Ctx) UF(name string, ret string, args ...Term) Term {
 func (c *Ctx) Raw(decl string) { c.decls = append(c.decls, decl) }
 
 func (c *Ctx) Assume(cond, t Term, why string) {
+	if cond.IsTrue() {
+		c.recordKnown(t)
+	}
 	t = Implies(cond, t)
 	if t.IsTrue() {
 		return
@@ -184,7 +198,7 @@ func (c *Ctx) siteName(kind string) string {
 
 func (c *Ctx) Oblige(kind, label string, cond, goal Term, pos token.Position, note string) *Obligation {
 	g := Implies(cond, goal)
-	o := &Obligation{Name: c.fn + "#" + kind + "." + label, Kind: kind, Func: c.fn, Property: c.property,
+	o := &Obligation{Name: c.fn + "#" + kind + "." + label + c.caseSuffix, Kind: kind, Func: c.fn, Property: c.property,
 		Goal: g, declPos: len(c.decls), asmPos: len(c.assumes), allocs: c.nextObj, quantHeap: c.needQuantHeap, Pos: pos, Note: note, Ctx: c}
 	c.obls = append(c.obls, o)
 	return o
@@ -192,7 +206,7 @@ func (c *Ctx) Oblige(kind, label string, cond, goal Term, pos token.Position, no
 
 // Cover registers a satisfiability (non-vacuity) query.
 func (c *Ctx) Cover(label string, cond Term, pos token.Position) *Obligation {
-	o := &Obligation{Name: c.fn + "#cover." + label, Kind: "cover", Func: c.fn, Property: c.property,
+	o := &Obligation{Name: c.fn + "#cover." + label + c.caseSuffix, Kind: "cover", Func: c.fn, Property: c.property,
 		Goal: cond, declPos: len(c.decls), asmPos: len(c.assumes), allocs: c.nextObj, quantHeap: c.needQuantHeap, Pos: pos, WantSat: true, Ctx: c}
 	c.obls = append(c.obls, o)
 	return o
@@ -382,4 +396,56 @@ func (c *Ctx) feasible(reach Term) bool {
 		return false
 	}
 	return true
+}
+
+// recordKnown remembers unconditional equalities term = literal, so that
+// non-linear operations on such terms can be built with the literal.
+func (c *Ctx) recordKnown(t Term) {
+	if strings.HasPrefix(t.S, "(and ") {
+		for _, cj := range splitAnd(t) {
+			c.recordKnown(cj)
+		}
+		return
+	}
+	if !strings.HasPrefix(t.S, "(= ") {
+		return
+	}
+	body := t.S[3 : len(t.S)-1]
+	depth := 0
+	for i, ch := range body {
+		switch ch {
+		case '(':
+			depth++
+		case ')':
+			depth--
+		case ' ':
+			if depth == 0 {
+				a, b := body[:i], body[i+1:]
+				if strings.HasPrefix(b, "(_ bv") && !strings.HasPrefix(a, "(_ bv") {
+					c.knownConst[a] = b
+				} else if strings.HasPrefix(a, "(_ bv") && !strings.HasPrefix(b, "(_ bv") {
+					c.knownConst[b] = a
+				}
+				return
+			}
+		}
+	}
+}
+
+func (c *Ctx) known(t Term) Term {
+	if t.C != nil {
+		return t
+	}
+	if lit, ok := c.knownConst[t.S]; ok {
+		f := strings.Fields(strings.Trim(lit, "()"))
+		if len(f) == 3 {
+			n, ok1 := new(big.Int).SetString(strings.TrimPrefix(f[1], "bv"), 10)
+			var w int
+			fmt.Sscanf(f[2], "%d", &w)
+			if ok1 && SBV(w) == t.Sort {
+				return BVLit(n, w)
+			}
+		}
+	}
+	return t
 }
